@@ -42,8 +42,7 @@ def gen(tier, rng, harness=None):
         for w in range(1, 9):
             for x in range(-(2**w), 2**w + 1):
                 lines.append("int.ident %d %d" % (w, x))
-                if -(2**(w - 1)) <= x < 2**w:
-                    lines.append("!int.rt %d %d" % (w, x))
+                lines.append("!int.rt %d %d" % (w, x))
                 if 0 <= x < 2**w:
                     for form in ("dec", "dec0", "u0x", "u0xl", "s0x"):
                         lines.append("!int.sem %d %s %d" % (w, form, x))
@@ -56,8 +55,7 @@ def gen(tier, rng, harness=None):
         for w in WIDTHS + [rng.randint(1, 4096)]:
             for x in interesting_values(rng, w):
                 lines.append("int.ident %d %d" % (w, x))
-                if -(2**(w - 1)) <= x < 2**w:      # representable in iW (signed or unsigned reading)
-                    lines.append("!int.rt %d %d" % (w, x))
+                lines.append("!int.rt %d %d" % (w, x))      # every value, representable in iW or not (the theorem has no guard)
                 if x >= 0 and w > 1:
                     form = rng.choice(["dec", "dec0", "u0x", "u0xl", "s0x"])
                     if form == "s0x" and x >= 2**w:
